@@ -351,7 +351,12 @@ where
                     }
                 }
             }
-            Err(e) => Err(PdfError::Shared { source: e.clone()}),
+            Err(_) => {
+                // the cache is keyed by reference only: the cached error may come from loading
+                // this object as a different type, so it says nothing about `T`
+                let p = self.resolve(key)?;
+                Ok(RcRef::new(key, T::from_primitive(p, self)?.into()))
+            }
         }
     }
     fn options(&self) -> &ParseOptions {
